@@ -119,7 +119,7 @@ fn check_keys(ctx: &Ctx, c: &KeyCase) -> PResult {
             let (comp, _) = prog::build(&p).map_err(|e| Fail::new("honest-build-error", format!("{e:?}")))?;
             (p, comp.constraints())
         }
-        None => c01::padded_program(&c.ops, c.target, 30000)?,
+        None => c01::padded_program(&c.ops, c.target, 30000 + (c.seed & 1) as u16)?,
     };
     let pp = sys::pp(sys::min_capacity(n));
     let (prover, verifier) = sys::compile(&pp, &c.label, &program, c01::route_of(c.route))
